@@ -49,7 +49,8 @@ BOUNDS = {
              "sums within atol of 1) x 8 zero patterns, all vectors of tenths (2 float renderings) and eighths with <= 5 "
              "outcomes; grid 2^12 (+ half-offset grid); calc_empi_dist_sequence: data over 3 symbols up to length 7 x "
              "all num_sums lists over 1..8 up to length 3; histories depth 3 over a 67-event menu (20 entry points x 3 "
-             "seed modes + 7 environment events); 4 size configurations; 9 int seeds",
+             "seed modes + 7 environment events); 28 size configurations (every increasing num_sums list of length <= 3 "
+             "over {1,2,7,100,1000} + 4 hand-picked); 9 int seeds",
     "thorough": "tenths with <= 7 outcomes, eighths with <= 6; grid 2^14; data length <= 8 x num_sums over 1..9 up to "
                 "length 4; histories depth 4",
 }
@@ -67,6 +68,11 @@ CFGS = [
     {"nd": 7, "nums": [7, 8, 1000], "n1": 1000},
     {"nd": 0, "nums": [5], "n1": 5},
 ]
+# every increasing sample-size list of length 1..3 over {1, 2, 7, 100, 1000}
+for _r in (1, 2, 3):
+    for _t in itertools.combinations((1, 2, 7, 100, 1000), _r):
+        if not any(c["nums"] == list(_t) for c in CFGS):
+            CFGS.append({"nd": _t[0], "nums": list(_t), "n1": _t[-1]})
 MODES = ("int", "gen", "none")
 
 
